@@ -752,6 +752,13 @@ class Gen:
             for ln in lines[comp_of[s0]]:
                 if ln["name"] == f"d{s0}_dt":
                     ln["expr"] = ("bin", "+", ln["expr"], comb)
+            if len(states) >= 2 and rng.random() < 0.35:
+                # a state whose derivative IS a relation (a flag that counts time above a threshold): the schemes
+                # differentiate it and the symbolic right-hand side substitutes it
+                s1 = rng.choice([s_ for s_ in states if s_ != s0])
+                for ln in lines[comp_of[s1]]:
+                    if ln["name"] == f"d{s1}_dt":
+                        ln["expr"] = self.rel(pool, 1)
         blocks = []
         for c in comps:
             sts = [s for s in states if comp_of[s] == c]
